@@ -241,6 +241,7 @@ Section Defs.
     gi_link : seq_cut 0 (map fst (s_calls s)) = (map fst (s_calls s), false);
     gi_last : s_last s = lid 0 (map fst (s_calls s));
     gi_ret : forall e, s_m s = MRet e -> term s = false -> good e s;
+    gi_done : forall e, s_m s = MDone e -> term s = true;
     gi_err : forall e, s_err s = Some e ->
                (e = fclass (c_fault C) /\ c_fault C <> FNone) \/
                (e = ENil /\ c_ext C = true) \/
